@@ -1514,6 +1514,7 @@ static bool mpi_segment(Plan const& p, Session& s, std::vector<u64> const& seg_c
     if (completed != nullptr) *completed = false;
     std::string const key = fmt("%s %s %s", integ_name(p.integ), nt_name(p.nt), engine_name(p.eng));
     ld const eps = eps_of(p.nt);
+    ld const denorm = (p.nt == NT_F) ? std::ldexp(1.0L, -149) : (p.nt == NT_D) ? std::ldexp(1.0L, -1074) : std::ldexp(1.0L, -16445);
     ctl.P = P;
     bool const volume = (p.variant == 9);
     if (volume)
@@ -1767,13 +1768,13 @@ static bool mpi_segment(Plan const& p, Session& s, std::vector<u64> const& seg_c
             sumsq += val * val;
         }
         u64 const N = rv.calls;
-        if (!(std::fabs(rv.sum - sv.sum) <= (P + 4) * eps * sumabs))
+        if (!(std::fabs(rv.sum - sv.sum) <= (P + 4) * eps * sumabs + (N + P + 8) * denorm))
         {
             rep.fail("C04", "sum-differs", key, fmt("iteration %llu: sum %.21Lg, serial %.21Lg", (unsigned long long) k,
                 rv.sum, sv.sum));
             return false;
         }
-        if (!(std::fabs(rv.sumsq - sv.sumsq) <= (2 * N + P + 4) * eps * sumsq))
+        if (!(std::fabs(rv.sumsq - sv.sumsq) <= (2 * N + P + 4) * eps * sumsq + (N + P + 8) * denorm))
         {
             rep.fail("C04", "sumsq-differs", key, fmt("iteration %llu: sum of squares %.21Lg, serial %.21Lg",
                 (unsigned long long) k, rv.sumsq, sv.sumsq));
@@ -1787,7 +1788,7 @@ static bool mpi_segment(Plan const& p, Session& s, std::vector<u64> const& seg_c
         for (std::size_t j = 0; j != rv.adj.size(); ++j)
         {
             ld const scale = std::max(std::fabs(rv.adj[j]), std::fabs(sv.adj[j]));
-            if (!(std::fabs(rv.adj[j] - sv.adj[j]) <= (2 * N + P + 16) * eps * scale))
+            if (!(std::fabs(rv.adj[j] - sv.adj[j]) <= (2 * N + P + 16) * eps * scale + (N + P + 8) * denorm))
             {
                 rep.fail("C04", "adjustment-differs", key, fmt("iteration %llu entry %zu: %.21Lg, serial %.21Lg",
                     (unsigned long long) k, j, rv.adj[j], sv.adj[j]));
@@ -1823,8 +1824,10 @@ static bool mpi_segment(Plan const& p, Session& s, std::vector<u64> const& seg_c
                 ld const sq = std::max(pb[i].sumsq, sb[i].sumsq);
                 // cancellation inside a bin: scale by the root of the sum of squares times calls
                 ld const mag = std::max(sc, std::sqrt(sq * std::max<ld>(1, pb[i].fin)));
-                if (!(std::fabs(pb[i].sum - sb[i].sum) <= (P + 8) * eps * mag) ||
-                    !(std::fabs(pb[i].sumsq - sb[i].sumsq) <= (2 * N + P + 8) * eps * sq))
+                // (in the subnormal range every partial sum carries an absolute error of half the smallest
+                // subnormal, whatever its magnitude)
+                if (!(std::fabs(pb[i].sum - sb[i].sum) <= (P + 8) * eps * mag + (N + P + 8) * denorm) ||
+                    !(std::fabs(pb[i].sumsq - sb[i].sumsq) <= (2 * N + P + 8) * eps * sq + (N + P + 8) * denorm))
                 {
                     rep.fail("C04", "bin-sums-differ", key, fmt(
                         "iteration %llu distribution %zu bin %zu: sum %.21Lg serial %.21Lg, sumsq %.21Lg serial %.21Lg",
